@@ -58,7 +58,7 @@ def gen_case(rng: random.Random, big=False) -> dict:
     if rng.random() < 0.6:
         t1["node_budget"] = rng.choice([0.5, 1.0, 1.5, 100.0, 1e-3])
     if rng.random() < 0.6:
-        t1["radius_cap"] = rng.choice([0, 1, 2, 4, 50])
+        t1["radius_cap"] = rng.choice([0, 1, 2, 3, 4, 50])
     if rng.random() < 0.5:
         t1["iter_cap"] = rng.choice([0, 1, 2, 50])
     if klass == "raw":
@@ -95,6 +95,7 @@ def gen_case(rng: random.Random, big=False) -> dict:
             if rng.random() < 0.3:
                 text = text.upper()
     return {"graphs": graphs, "klass": klass, "t1": t1, "slice": slice_b, "perf": perf, "text": text,
+            "warm_cache": rng.random() < 0.4, "warm_loose_cfg": rng.random() < 0.5,
             "order": rng.sample(list(graphs), len(graphs)) + ([rng.choice(list(graphs))] if rng.random() < 0.1 else [])}
 
 
@@ -273,6 +274,31 @@ def run_real(case, cfg, order, text):
                 order_same=(state["active_graphs"] == list(order)))
 
 
+def run_warm(case, cfg, order, text):
+    """Stage cache ON: first an uncapped call (no slice budgets, loose config caps) on the same store, then the
+    case's own call.  Returns the second result (None if the config cannot be built)."""
+    import clematis.engine.stages.t1 as t1m
+    from vlib import bootstrap
+
+    bootstrap.reset_globals()
+    st = build_store(case["graphs"])
+    cfg_on = copy.deepcopy(cfg)
+    cfg_on["t1"]["cache"] = AD({"enabled": True, "max_entries": 64, "ttl_s": 300})
+    loose = copy.deepcopy(cfg_on)
+    if case.get("warm_loose_cfg"):
+        for k in ("queue_budget", "iter_cap", "iter_cap_layers", "radius_cap", "relax_cap"):
+            loose["t1"].pop(k, None)
+    state = {"store": st, "active_graphs": list(order)}
+    try:
+        t1m.t1_propagate(NS(cfg=loose), state, text)
+        ctx = NS(cfg=cfg_on)
+        if case.get("slice") is not None:
+            ctx.slice_budgets = dict(case["slice"])
+        return t1m.t1_propagate(ctx, state, text)
+    finally:
+        bootstrap.reset_globals()
+
+
 def check_case(case, sess: Session):
     try:
         cfg = build_cfg(case)
@@ -366,6 +392,18 @@ def check_case(case, sess: Session):
     if [d["id"] for d in o2["res"].graph_deltas] != got or o2["res"].metrics != m:
         sess.violation("repeat-call-differs", case, {"a": m, "b": o2["res"].metrics})
 
+    # ---- (1b) the same call behind a warm stage cache: an earlier, uncapped call on the same store must not leak
+    if case.get("warm_cache"):
+        out_w = run_warm(case, cfg, order, text)
+        if out_w is not None:
+            sess.count("warm_cache_calls")
+            mw = out_w.metrics
+            if [d.get("id") for d in out_w.graph_deltas] != got or any(mw.get(k) != m.get(k) for k in ("pops", "iters", "propagations", "radius_cap_hits", "layer_cap_hits", "node_budget_hits")):
+                sess.violation("warm-stage-cache-changes-result", case, {"cold": [got, {k: m.get(k) for k in ("pops", "iters", "propagations")}],
+                                                                         "warm": [[d.get("id") for d in out_w.graph_deltas], {k: mw.get(k) for k in ("pops", "iters", "propagations")}]})
+            if mw.get("cache_hits"):
+                sess.count("warm_cache_hits_served")
+
     # ---- (3) reference model
     if not perf_caps_on:
         exp_ids = []
@@ -423,6 +461,7 @@ def main(tier: str, seed: int):
     sess.require("hooked_heappop_events", 500)
     sess.require("cases_where_a_budget_bound", 50)
     sess.require("cases_with_propagation", 500)
+    sess.require("warm_cache_hits_served", 50)
     sess.finish()
 
 
